@@ -142,7 +142,8 @@ func tlsConfigs() (*tls.Config, *tls.Config) {
 const (
 	classMain   = 0
 	classListen = 2
-	classAdmin  = 3 // +index
+	classAdmin  = 3   // +index
+	classWoken  = 900 // 900..999: a library goroutine woken at another actor's instant (conn.woken)
 )
 
 // runScenario executes sc inside a fresh synctest bubble against the real
@@ -187,10 +188,11 @@ func runScenarioIn(t *testing.T, sc *Scenario, h *History) {
 			ch.C2S = halves[i][0].rd.record()
 			ch.S2C = halves[i][0].wr.record()
 			ch.SrvLateWrites = halves[i][0].lateWrites
+			ch.SrvBlocked, ch.SrvBlockedTO = halves[i][0].blocked, halves[i][0].blockedTimeouts
 		}
 	}()
 
-	if sc.YieldPark > 0 {
+	{
 		yp := sc.YieldPark
 		var yn atomic.Int64
 		points := map[string]bool{"server.close": true, "server.shutdown": true}
@@ -201,7 +203,16 @@ func runScenarioIn(t *testing.T, sc *Scenario, h *History) {
 			}
 		}
 		smtp.VerifYield = func(point string) {
-			if !points[point] {
+			if point == "conn.woken" {
+				// The command loop was woken by another goroutine through the library's own
+				// synchronisation and is running at that goroutine's instant, next to it.
+				// It goes on at an instant derived from the waker's class, when the waker
+				// has run to its next blocking point.
+				if w := int(time.Now().UnixNano() % classMod); w < classWoken {
+					sleepClass(classWoken+w%(classMod-classWoken), 0)
+				}
+			}
+			if yp == 0 || !points[point] {
 				return
 			}
 			// each caller parks in its own residue class
